@@ -56,6 +56,10 @@ type run struct {
 	refused    []bool // the last Leave of the channel was answered with an error
 	everJoined map[int]bool
 	feedCh     chan []byte
+	rs2        *common.RawSession // configuration `m`: a second live session served by the same Client (channel c lives on session c%2)
+	feedCh2    chan []byte
+	outPos2    int
+	serveRet2  atomic.Value
 	wrote      chan struct{}   // signalled whenever the session has written something
 	serveRet   atomic.Value    // string: how Serve ended (set before the event is emitted)
 	lastItem   *sentItem       // the item of the last presence fed (what the callback must report)
@@ -130,13 +134,78 @@ func newRun(r *common.Run, addrs []int, cf nsConf) (*run, error) {
 		// the callbacks are optional: the bookkeeping must be the same without them
 		x.cl = &muc.Client{}
 	}
-	m := mux.New(cf.ns, muc.HandleClient(x.cl))
+	var m *mux.ServeMux
+	if cf.late && !cf.nocb {
+		// configuration order: the callbacks are exported fields; an application may assign them
+		// after it has registered the Client with its multiplexer.  They count from then on.
+		full := x.cl
+		x.cl = &muc.Client{}
+		m = mux.New(cf.ns, muc.HandleClient(x.cl))
+		x.cl.HandleInvite, x.cl.HandleUserPresence = full.HandleInvite, full.HandleUserPresence
+	} else {
+		m = mux.New(cf.ns, muc.HandleClient(x.cl))
+	}
 	ctl.Go("serve", func() {
 		err := rs.S.Serve(m)
 		x.serveRet.Store(fmt.Sprint(err))
 		ctl.Emit("serve", "ret:"+fmt.Sprint(err), nil)
 	})
+	if cf.multi {
+		// one Client serving two live sessions (two resources of one account): its own multiplexer
+		// and serve loop, the same Client
+		rs2, err := common.NewRawSession(state, cf.ns, jid.MustParse("me@example.net/h2"), jid.MustParse("example.net"))
+		if err != nil {
+			return nil, err
+		}
+		x.rs2, x.feedCh2 = rs2, make(chan []byte, 1024)
+		rs2.Out.OnWrite = rs.Out.OnWrite
+		go func() {
+			for b := range x.feedCh2 {
+				if rs2.Feed(b) != nil {
+					return
+				}
+			}
+		}()
+		m2 := mux.New(cf.ns, muc.HandleClient(x.cl))
+		ctl.Go("serve2", func() {
+			err := rs2.S.Serve(m2)
+			x.serveRet2.Store(fmt.Sprint(err))
+			ctl.Emit("serve2", "ret:"+fmt.Sprint(err), nil)
+		})
+	}
 	return x, nil
+}
+
+// sof: the session channel c lives on.
+func (x *run) sof(c int) int {
+	if x.rs2 != nil {
+		return c % 2
+	}
+	return 0
+}
+
+func (x *run) sess(k int) *common.RawSession {
+	if k == 1 && x.rs2 != nil {
+		return x.rs2
+	}
+	return x.rs
+}
+
+// sessOfAddr: the session on which the room's presence for occupant address a arrives — that of the
+// channel registered under it (else the first).
+func (x *run) sessOfAddr(a int) int {
+	if c, ok := x.managed[a]; ok {
+		return x.sof(c)
+	}
+	return 0
+}
+
+func (x *run) feedTo(k int, s string) {
+	if k == 1 && x.rs2 != nil {
+		x.feedCh2 <- []byte(s)
+		return
+	}
+	x.feedCh <- []byte(s)
 }
 
 // useChannels is what an application does inside its callbacks: it reads Joined() / Me() of its
@@ -171,13 +240,19 @@ func (x *run) setChan(c int, ch *muc.Channel) {
 // refuseWrites makes every write of the session's connection fail (on) or work again (off); the
 // Len() calls order the change with the writers (lock / unlock of the buffer).
 func (x *run) refuseWrites(on bool) {
-	x.rs.Out.Len()
-	if on {
-		x.rs.Out.Fail = errors.New("verif: the connection refuses writes")
-	} else {
-		x.rs.Out.Fail = nil
+	for k := 0; k < 2; k++ {
+		if k == 1 && x.rs2 == nil {
+			break
+		}
+		out := x.sess(k).Out
+		out.Len()
+		if on {
+			out.Fail = errors.New("verif: the connection refuses writes")
+		} else {
+			out.Fail = nil
+		}
+		out.Len()
 	}
-	x.rs.Out.Len()
 }
 
 func (x *run) problem(f string, a ...interface{}) {
@@ -216,17 +291,21 @@ var idRe = regexp.MustCompile(`id=["']([^"']*)["']`)
 
 // awaitPresence polls the session's output for a new presence stanza to the
 // occupant address and returns its id.
-func (x *run) awaitPresence(to string, unavailable bool) string {
+func (x *run) awaitPresence(k int, to string, unavailable bool) string {
 	deadline := time.Now().Add(watchdog)
+	pos := &x.outPos
+	if k == 1 && x.rs2 != nil {
+		pos = &x.outPos2
+	}
 	for time.Now().Before(deadline) {
-		out := string(x.rs.Out.Bytes())
-		for _, loc := range presRe.FindAllStringIndex(out[x.outPos:], -1) {
-			tag := out[x.outPos+loc[0] : x.outPos+loc[1]]
+		out := string(x.sess(k).Out.Bytes())
+		for _, loc := range presRe.FindAllStringIndex(out[*pos:], -1) {
+			tag := out[*pos+loc[0] : *pos+loc[1]]
 			if strings.Contains(tag, `"kabort`) {
 				continue // the request of a Join call that gave up (it may reach the wire late): nobody answers it
 			}
 			if strings.Contains(tag, to) && strings.Contains(tag, `"unavailable"`) == unavailable {
-				x.outPos += loc[1]
+				*pos += loc[1]
 				if m := idRe.FindStringSubmatch(tag); m != nil {
 					return m[1]
 				}
@@ -257,6 +336,9 @@ func (x *run) served() string {
 	if v, ok := x.serveRet.Load().(string); ok {
 		return " (Serve returned: " + v + ")"
 	}
+	if v, ok := x.serveRet2.Load().(string); ok {
+		return " (Serve of the second session returned: " + v + ")"
+	}
 	return ""
 }
 
@@ -266,16 +348,28 @@ func (x *run) syncQ() bool {
 	if x.blocked || x.over || len(x.problems) > 0 {
 		return true
 	}
+	for k := 0; k < 2; k++ {
+		if k == 1 && x.rs2 == nil {
+			break
+		}
+		if !x.syncOne(k) {
+			return false
+		}
+	}
+	return true
+}
+
+func (x *run) syncOne(k int) bool {
 	x.nsync++
 	id := fmt.Sprintf("sync%d", x.nsync)
-	x.feed(fmt.Sprintf(`<iq xmlns="%s" type="get" id="%s" from="example.net"><ping xmlns="urn:xmpp:ping"/></iq>`, x.ns, id))
+	x.feedTo(k, fmt.Sprintf(`<iq xmlns="%s" type="get" id="%s" from="example.net"><ping xmlns="urn:xmpp:ping"/></iq>`, x.ns, id))
 	deadline := time.Now().Add(watchdog)
 	for time.Now().Before(deadline) {
-		out := string(x.rs.Out.Bytes())
+		out := string(x.sess(k).Out.Bytes())
 		if strings.Contains(out, `"`+id+`"`) || strings.Contains(out, `'`+id+`'`) {
 			return true
 		}
-		if x.serveRet.Load() != nil {
+		if x.serveRet.Load() != nil || x.serveRet2.Load() != nil {
 			break // Serve has returned: nothing will answer
 		}
 		x.pause()
@@ -536,11 +630,11 @@ func (x *run) act(a string) bool {
 			case first && custom:
 				var ch *muc.Channel
 				own.To = from // the room comes from the presence here
-				ch, err = x.cl.JoinPresence(ctx, own, x.rs.S, opts...)
+				ch, err = x.cl.JoinPresence(ctx, own, x.sess(x.sof(c)).S, opts...)
 				x.setChan(c, ch)
 			case first:
 				var ch *muc.Channel
-				ch, err = x.cl.Join(ctx, from, x.rs.S, opts...)
+				ch, err = x.cl.Join(ctx, from, x.sess(x.sof(c)).S, opts...)
 				x.setChan(c, ch)
 			case custom:
 				err = x.chans[c].JoinPresence(ctx, own, opts...)
@@ -581,7 +675,7 @@ func (x *run) act(a string) bool {
 			x.sample()
 			return true
 		}
-		x.jid[c] = x.awaitPresence(occ(want).String(), false)
+		x.jid[c] = x.awaitPresence(x.sof(c), occ(want).String(), false)
 		x.requestSent("Join", c, x.jid[c], custom, own.ID, occ(want).String())
 	case a[0] == 'K':
 		// K<c> / K<c>@<a>: a (further) Join call on channel c with a context that is already over.  While
@@ -626,7 +720,7 @@ func (x *run) act(a string) bool {
 			// later moment; awaitPresence skips it by that id)
 			own := stanza.Presence{ID: fmt.Sprintf("kabort%d", x.ncall), To: from}
 			if first {
-				ch, err := x.cl.JoinPresence(ctx, own, x.rs.S, opts...)
+				ch, err := x.cl.JoinPresence(ctx, own, x.sess(x.sof(c)).S, opts...)
 				done <- res{ch, err}
 				return
 			}
@@ -721,7 +815,7 @@ func (x *run) act(a string) bool {
 			self := reg && x.jst[c] != "idle" && x.req[c] == ad // the presence the pending join waits for
 			x.trace = append(x.trace, a)
 			before := x.upres
-			x.feed(st)
+			x.feedTo(x.sessOfAddr(ad), st)
 			switch {
 			case self && x.jst[c] == "insel":
 				x.jready[c] = "self"
@@ -744,7 +838,10 @@ func (x *run) act(a string) bool {
 				x.callbacks()
 				want := 0
 				if reg && !x.conf.nocb {
-					want = 1 // an occupant presence of a registered address that completes no join
+					// an occupant presence of a registered address that completes no join: one callback per
+					// muc#user child (the multiplexer runs the handler for each; how often the application
+					// hears of one presence is not the property's business, that it hears of it is)
+					want = item.times()
 				}
 				if x.upres-before != want {
 					key := "presence-of-unjoined-room-not-ignored"
@@ -759,7 +856,7 @@ func (x *run) act(a string) bool {
 				return false
 			}
 			x.trace = append(x.trace, a)
-			x.feed(st)
+			x.feedTo(x.sessOfAddr(ad), st)
 			if !processed() {
 				break
 			}
@@ -805,7 +902,7 @@ func (x *run) act(a string) bool {
 				x.jready[c] = "noerr" // a type='error' reply without an error element
 			}
 			x.jsent[c] = shape
-			x.feed(fmt.Sprintf(`<presence xmlns="%s" from="%s" id="%s" type="error">%s</presence>`, x.ns, occ(x.req[c]), x.jid[c], shape.xml(x.ns, false)))
+			x.feedTo(x.sof(c), fmt.Sprintf(`<presence xmlns="%s" from="%s" id="%s" type="error">%s</presence>`, x.ns, occ(x.req[c]), x.jid[c], shape.xml(x.ns, false)))
 		} else {
 			x.jready[c] = "ctx"
 			x.jcancel[c]()
@@ -860,7 +957,7 @@ func (x *run) act(a string) bool {
 			x.sample()
 			return true
 		}
-		x.lid[c] = x.awaitPresence(occ(x.cur[c]).String(), true)
+		x.lid[c] = x.awaitPresence(x.sof(c), occ(x.cur[c]).String(), true)
 		x.requestSent("Leave", c, x.lid[c], custom, own.ID, occ(x.cur[c]).String())
 	case a[0] == 'l':
 		c := num(1)
@@ -920,7 +1017,7 @@ func (x *run) act(a string) bool {
 				x.lready[c] = "noerr"
 			}
 			x.lsent[c] = shape
-			x.feed(fmt.Sprintf(`<presence xmlns="%s" from="%s" id="%s" type="error">%s</presence>`, x.ns, occ(x.cur[c]), x.lid[c], shape.xml(x.ns, true)))
+			x.feedTo(x.sof(c), fmt.Sprintf(`<presence xmlns="%s" from="%s" id="%s" type="error">%s</presence>`, x.ns, occ(x.cur[c]), x.lid[c], shape.xml(x.ns, true)))
 		} else {
 			x.lready[c] = "ctx"
 			x.lcancel[c]()
@@ -946,7 +1043,7 @@ func (x *run) act(a string) bool {
 			return false
 		}
 		x.trace = append(x.trace, a) // for the model: an unrelated stanza
-		x.feed(fmt.Sprintf(`<presence xmlns="%s" from="%s" id="%s" type="error"><error type="cancel"><forbidden xmlns="urn:ietf:params:xml:ns:xmpp-stanzas"/></error></presence>`, x.ns, occ(x.cur[c]), id[c]))
+		x.feedTo(x.sof(c), fmt.Sprintf(`<presence xmlns="%s" from="%s" id="%s" type="error"><error type="cancel"><forbidden xmlns="urn:ietf:params:xml:ns:xmpp-stanzas"/></error></presence>`, x.ns, occ(x.cur[c]), id[c]))
 		before := len(x.problems)
 		x.sync()
 		if len(x.problems) > before {
@@ -1094,6 +1191,11 @@ func runCaseWith(r *common.Run, addrs []int, cf nsConf, body func(x *run), class
 		close(x.feedCh)
 		x.rs.In.Close()
 		common.WithTimeout(200*time.Millisecond, func() { x.rs.S.Close() })
+		if x.rs2 != nil {
+			close(x.feedCh2)
+			x.rs2.In.Close()
+			common.WithTimeout(200*time.Millisecond, func() { x.rs2.S.Close() })
+		}
 	}()
 	body(x)
 	var obs string
@@ -1320,12 +1422,16 @@ func Run(r *common.Run) error {
 		}
 		for _, l := range lines {
 			f := strings.Fields(l)
+			if len(f) >= 3 && f[1] == "handoff" {
+				handoffCase(r, f[2] == "true")
+			}
 			if len(f) >= 4 && f[0] == "C18" && f[1] == "muc" {
 				runCase(r, parseAddrs(f[2]), replayable(f[3]), "replay")
 			}
 		}
 		return nil
 	}
+	runHandoff(r)
 	r.Mark("case concurrent 0")
 	runConcurrent(r, 3, r.Pick(10, 40))
 	if r.Race() {
